@@ -106,6 +106,7 @@ func verifC03Target() *verifc03.Target {
 			w.MinChunkSize = o.MinChunk
 			for _, in := range ins {
 				var err error
+				rec.Mark()
 				if lossless {
 					err = w.AppendTarLossLess(bytes.NewReader(in))
 				} else {
